@@ -29,6 +29,28 @@ CHECKS = {
    'Oracles: clamp-based nearest / per-axis farthest squared distance; max(a0,b0)<=min(a1,b1); EvaluateSlow (public reference). Union operands are exact-distance shapes with tight boxes.',
    'DESIGN.md 2/C16'),
 }
+
+CHECKS['C07'] = ('exploration',
+   'metamorphic runtime oracle render(f) vs render(2^-k f) compared as multisets + independent finest-cell sweep (every generic sign-changing cell must own output); evaluation counts via counting wrappers',
+   'Real MarchingCubesOctree / MarchingSquaresQuadtree renders of 1-Lipschitz fields with a prescribed bounding box; features are placed relative to the learned tree (sphere tangent +-delta to a coarse cube face, vertex on a coarse cube corner, small feature in a coarse cube corner, thin plates, far-apart features). Scaling by 2^-k leaves signs and interpolation ratios bit-identical but disables all pruning, so both outputs must be identical multisets; an independent sweep over all finest cells catches losses common to both renders (e.g. a dropped child).',
+   'Depths 2..7 quick / 2..8 thorough; cases where a value crosses the absolute 1e-12 snap epsilon under scaling are counted and skipped for oracle 1 only.',
+   'DESIGN.md 2/C07')
+CHECKS['C15'] = ('exploration',
+   'read-back differential monitor: files written by To3MF/ToDXF/ToSVG/SaveDXF/SaveSVG (scripted renderers for the streaming paths) decoded with independent readers (go3mf, yofu/dxf + raw group-code scan, encoding/xml) and compared with an exact rational rounding oracle',
+   'Writes PRNG-generated triangle / segment lists (empty, duplicates, shared vertices, negative, tiny, large, colliding-after-rounding, pinned witnesses) through every batch and streaming export path and demands that the decoded files contain exactly the input geometry at the format precision (3MF: float32 then 4 decimals, exact float32 dedup in first-appearance order; DXF: layer Lines, order, %.16f; SVG: origin shift, Y flip, 2 decimals, canvas = extent).',
+   'Readers are trusted to report file contents (DXF additionally cross-checked by a raw scan). NaN/Inf/float32-overflow inputs are outside the domain.',
+   'DESIGN.md 2/C15')
+CHECKS['C17'] = ('exploration',
+   'runtime comparison of Polygon.Vertices() / Bezier.Polygon().Vertices() with independently constructed fillet, chamfer, arc, relative/polar and de Casteljau geometry',
+   'Generates corner geometries (1..179 degrees, both turning directions, fit / no-fit by either edge), radii, facet counts, arcs (chords, radii, signs), relative/polar chains, N-gons and Bezier control polygons of degree 1..4 with handles, closed/open, and checks every produced vertex against an independent construction (tangent points, circle membership, equal angular spacing, on-curve with increasing parameter, exact end points).',
+   'Judged only where fit/no-fit is clear by a 2% margin and adjacent fillets do not compete for the same edge; angles below 1 or above 179 degrees are skipped (acos conditioning).',
+   'DESIGN.md 2/C17')
+CHECKS['C18'] = ('exploration',
+   'exhaustive table comparison against an independent designation table + runtime symmetry / mating monitors over sampled points of real Screw3D, obj.Bolt, obj.Nut shapes',
+   'Every thread database entry is compared with a table typed from the designations and ISO 261 / ASME B1.1 / B1.20.1; ToMillimetre laws checked on every entry; helical invariance, z-periodicity and a not-invariant-under-opposite-hand guard for all profiles x starts +-1..4; bolt/nut non-intersection for every entry x 16 tolerance pairs on points concentrated on flanks, crests and roots.',
+   'Table is exhaustive over the names the harness knows or can probe (122k candidate spellings); points of space are sampled; tapered pairs checked at the aligned position and towards the thin end.',
+   'DESIGN.md 2/C18')
+
 NOT_YET = 'monitor not built yet in this round (planned in DESIGN.md section 2); not claimed until its check exists'
 NA = {}
 
